@@ -9,8 +9,6 @@ import (
 	"math/rand/v2"
 	"net/http"
 	"net/url"
-	"os"
-	"strconv"
 	"strings"
 	"sync"
 
@@ -45,9 +43,6 @@ func roundConfig(run *ev.Run, r int) roundCfg {
 	c := roundCfg{Round: r, Dynamic: r%2 == 1, LegacyOnOp: r%4 == 2, Extras: r%3 == 1, Workers: []int{16, 32, 64, 48}[r%4]}
 	c.SigAlg = string([]jose.SignatureAlgorithm{jose.RS256, jose.ES256, jose.ES256, jose.PS256, jose.EdDSA}[r%5])
 	c.Ops = run.N(4000, 20000)
-	if v, err := strconv.Atoi(os.Getenv("C20_DEV_OPS")); err == nil {
-		c.Ops = v
-	}
 	return c
 }
 
@@ -141,10 +136,11 @@ func (rd *round) buildSet(name, issuer string, s srv) *sharedSet {
 	if !ok {
 		return nil
 	}
+	// Nothing is called on the shared relying parties before the goroutines start: their lazily created parts
+	// (IDTokenVerifier, ErrorHandler) must be safe to reach for the first time from many goroutines at once. Only
+	// the configuration they were built with is watched.
 	for n, r := range map[string]rp.RelyingParty{"rpWeb": set.rpWeb, "rpDefault": set.rpDefault, "rpPK": set.rpPK, "rpJWTAT": set.rpJWTAT, "rpCookie": set.rpCookie} {
 		rd.w.oauthConfig(name+"."+n+".OAuthConfig", r.OAuthConfig())
-		v := r.IDTokenVerifier()
-		rd.w.value(name+"."+n+".IDTokenVerifier", "C20:mutation:IDTokenVerifier", func() any { return (*oidc.Verifier)(v) })
 	}
 	return set
 }
